@@ -214,3 +214,19 @@ Example C01_sampling_needs_wellformed :
   exists prog, create_program p [] [] None = Ok (Some prog) /\ sampled prog (ChS 1) 0 = None /\
                play prog (ChS 1) 0 = Some 1.
 Proof. eexists. repeat split; vm_compute; reflexivity. Qed.
+
+(* ---- why C01_errors_statement is false as stated (two classes; both are outside the property's preconditions) ---- *)
+(* (1) ArithmeticPT evaluates its scalar with the WHOLE scope: a mapped parameter that the tree never uses but whose
+       defining expression needs a missing parameter makes create_program reject, the denotation is defined *)
+Example C01_errors_eager_scope :
+  let p := PMap [(1%N, EV 2%N)] [] (PArith true SAdd (inl (EC 1)) (PAtom (AConst (EC 1) [(ChS 1, EC 1)]))) in
+  create_program p [] [] None = Err EMissing /\ exists pcs, denote_top p [] [] = Ok pcs.
+Proof. split; [reflexivity|]. eexists. vm_compute. reflexivity. Qed.
+
+(* (2) a channel mapping that is not injective: from_parallel rejects the two tables on one channel, the table denotation
+       has no such check *)
+Example C01_errors_channel_clash :
+  let p := PAtom (ATable [(ChS 1, [(EC 0, EC 0, Hold); (EC 1, EC 1, Hold)]); (ChS 2, [(EC 0, EC 1, Hold); (EC 1, EC 1, Hold)])]) in
+  create_program p [] [(ChS 2, Some (ChS 1))] None = Err EValue /\
+  exists pcs, denote_top p [] [(ChS 2, Some (ChS 1))] = Ok pcs.
+Proof. split; [vm_compute; reflexivity|]. eexists. vm_compute. reflexivity. Qed.
